@@ -226,19 +226,68 @@ def rule3(ctx, prog, flows, full):
             ctx.violation("R-C08-3", "decision|" + fmt_desc(panic.shape(panic.norm(at["test"])))[:60], "the branch on %s depends on %s" % (fmt_desc(at["test"])[:80], hit), loc_str(blk.term.span))
     ctx.ok("R-C08-3", "decisions", "%d branch decisions other than the with_paths tests inspected" % n_sw, loc_str(full.span))
     ctx.floor("R-C08-3", "branch_decisions", n_sw, 4)
-    # first_only: blocks controlled by a first_only test write neither dist nor seen
-    n_fo = 0
+    # first_only: whether dist / seen is written must not depend on first_only.  Path-sensitive (predicate abstraction
+    # over first_only and the comparisons, with a > b / a == b / b > a mutually exclusive): the conditions under which a
+    # write is reached with first_only = true are those under which it is reached with first_only = false
+    import pathsens
+
+    ex = pathsens.Explorer(full, fl, prog, keep=lambda k: isinstance(k, str) and (k == "first_only" or k.startswith("Gt(") or k.startswith("Eq(")), stable=lambda k: k == "first_only")
+    ex.run()
+    n_w = 0
+    protected_w = (L(named["dist"][0]), L(named["seen"][0]))
     for blk in full.normal_blocks():
-        atoms = controlling_atoms(fl, blk.i)
-        if not any(desc_mentions(t, lambda d: d[0] == "place" and d[1] == "first_only") for (t, v, a) in atoms):
-            continue
-        n_fo += 1
+        writes = []
         for s in blk.stmts:
             if s.k == "assign" and s.lhs.has_deref():
                 for o in fl.resolve(s.lhs):
-                    if o in (L(named["dist"][0]), L(named["seen"][0])):
-                        ctx.violation("R-C08-3", "first_only-writes", "a block guarded by first_only writes `%s`" % full.local_name(o[1]), loc_str(s.span))
-    ctx.ok("R-C08-3", "first_only", "%d blocks guarded by first_only write neither dist nor seen" % n_fo, loc_str(full.span))
+                    if o in protected_w:
+                        writes.append((s, o))
+        if not writes:
+            continue
+        n_w += 1
+        states = ex.at_block.get(blk.i, set())
+        if ex.truncated or not states:
+            ctx.undecided("R-C08-3", "first_only-writes", "the conditions of a write to dist/seen could not be evaluated", loc_str(writes[0][0].span))
+            continue
+        def saturate(fd_):
+            """add what the ordering facts imply: a > b gives !(a == b) and !(b > a); a == b gives !(a > b), !(b > a)"""
+            import re as _re
+
+            out = dict(fd_)
+            for k_, v_ in list(fd_.items()):
+                m_ = _re.match(r"^(Gt|Eq)\((.*)\)$", k_) if isinstance(k_, str) and v_ is True else None
+                if not m_:
+                    continue
+                body_, depth_, cut_ = m_.group(2), 0, None
+                for i_, ch_ in enumerate(body_):
+                    if ch_ in "([":
+                        depth_ += 1
+                    elif ch_ in ")]":
+                        depth_ -= 1
+                    elif ch_ == "," and depth_ == 0:
+                        cut_ = i_
+                        break
+                if cut_ is None:
+                    continue
+                a_, b_ = body_[:cut_].strip(), body_[cut_ + 1:].strip()
+                lo_, hi_ = sorted([a_, b_])
+                for r_ in ("Gt(%s, %s)" % (a_, b_), "Gt(%s, %s)" % (b_, a_), "Eq(%s, %s)" % (lo_, hi_)):
+                    if r_ != k_:
+                        out.setdefault(r_, False)
+            return out
+
+        cond = {True: set(), False: set()}
+        for (facts, marks) in states:
+            fd = saturate(dict(facts))
+            rest = frozenset((k, v) for k, v in fd.items() if k != "first_only")
+            if "first_only" in fd:
+                cond[fd["first_only"]].add(rest)
+            else:
+                cond[True].add(rest)
+                cond[False].add(rest)
+        if cond[True] != cond[False]:
+            ctx.violation("R-C08-3", "first_only-writes", "`%s` is written under conditions that differ with first_only (%s vs %s): asking for one path instead of all changes the distances" % (full.local_name(writes[0][1][1]), sorted(map(sorted, cond[True]))[:2], sorted(map(sorted, cond[False]))[:2]), loc_str(writes[0][0].span))
+    ctx.ok("R-C08-3", "first_only", "%d blocks writing dist/seen are reached under the same conditions for first_only = true and false" % n_w, loc_str(full.span))
 
 
 def rule4(ctx, prog, flows, full):
